@@ -338,6 +338,8 @@ def call_method(fr, recv: Any, name: str, args: list, kwargs: dict, node: ast.AS
         s = as_sstr(recv)
         if name in ("lower", "upper"):
             return pai._simplify(getattr(s, name)())
+        if name in ("swapcase", "title", "capitalize", "casefold"):
+            return pai._simplify(s.case_op(name))
         if name == "strip":
             return pai._simplify(s.strip(_c(args[0]) if args else None))
         if name in ("lstrip", "rstrip"):
